@@ -16,6 +16,7 @@ derives of scnr through serde_json, on generated configurations, texts and value
              variant and malformed texts against parse_span, ...
 """
 import glob, json, math, os, re
+from concurrent.futures import ThreadPoolExecutor
 from common import *
 import corpus, gen
 
@@ -1040,6 +1041,7 @@ class C16:
                 scan_case = {'modes': norm_modes(modes), 'input': inp[:1500]}
         stats.update(self.check_values(vc, rng, rdir, out, scan_case, nparse=200 if tier == 'quick' else 3000))
         stats['outside_common_domain'] = self.check_outside(rdir, out)
+        stats['cache_sequences'] = self.check_cache_seq(self.cache_seq_cases(rng, tier, rt, res), rdir, out)
         # the README text the Example C16_readme is about is the one in the repository
         try:
             v, f = coq_eval_terms(['readme_json'], rdir, 'readme', 1)
@@ -1126,11 +1128,64 @@ class C16:
                 break
         return out
 
+    # ------------------------------------------------------------------------------------------
+    # the configuration read back LATER in the life of the process still builds the same scanner
+    FILLERS = {'quick': [0, 1, 63, 64, 65, 130, 257, 300], 'thorough': [0, 1, 2, 15, 16, 17, 31, 32, 33, 63, 64, 65, 127, 128, 129, 130,
+                                                                          255, 256, 257, 258, 300, 511, 512, 513, 700, 1025]}
+
+    def cache_seq_cases(self, rng, tier, rt, res):
+        good = [c for c, r in zip(rt, res) if r.get('build') == 'ok' and r.get('dump_states', 10 ** 9) <= 60 and c['kind'] != 'edge' and c['modes']]
+        cases = []
+        for k, nf in enumerate(self.FILLERS[tier]):
+            if not good:
+                break
+            c = good[(k * 7) % len(good)]
+            fillers = [[{'name': 'F', 'patterns': [{'p': 'f%d_%d' % (k, i), 't': i % 7}], 'transitions': []}] for i in range(nf)]
+            if nf >= 2:
+                # a filler that differs from the configuration in one lookahead / one name only
+                v = json.loads(json.dumps(c['modes']))
+                v[0]['name'] = v[0]['name'] + '_'
+                fillers[nf // 2] = v
+            cases.append({'check': 'cache_seq', 'modes': c['modes'], 'inputs': c.get('inputs', [])[:2], 'fillers': fillers})
+        return cases
+
+    def check_cache_seq(self, cases, rdir, out):
+        def one(ic):
+            i, c = ic
+            d = os.path.join(rdir, 'cseq_%03d' % i)
+            os.makedirs(d, exist_ok=True)
+            return run_harness([{'kind': 'json_cache_seq', 'modes': c['modes'], 'inputs': c['inputs'], 'fillers': c['fillers']}],
+                               d, 'cseq', threads=1)[0]
+        with ThreadPoolExecutor(max_workers=NCPU) as ex:
+            results = list(ex.map(one, enumerate(cases)))
+        n = 0
+        for c, r in zip(cases, results):
+            if r.get('harness_panic') or r.get('panic') or r.get('error'):
+                out.violations.append({'property': 'C16', 'what': 'building the configuration, other configurations and the re-read configuration '
+                                       'in one process panicked or failed: %s' % (r.get('harness_panic') or r.get('panic') or r.get('error')),
+                                       'case': c})
+                continue
+            if r.get('build') != 'ok':
+                continue
+            n += 1
+            if r.get('filler_failures'):
+                out.broken.append({'what': 'internal: a filler configuration of a cache sequence does not build', 'detail': r['filler_failures'][:3]})
+            if not (r.get('equal') and r.get('first_ok') and r.get('late_dump_ok') and r.get('late_streams_ok')):
+                out.violations.append({'property': 'C16',
+                                       'what': 'the configuration read back from its JSON text, built through build() after %d other configurations were '
+                                               'built in the same process, does not behave like the original (equal=%s, first build ok=%s, '
+                                               'late automata equal=%s, late token streams equal=%s)'
+                                               % (len(c['fillers']), r.get('equal'), r.get('first_ok'), r.get('late_dump_ok'), r.get('late_streams_ok')),
+                                       'case': c, 'streams_original': r.get('streams_ref'), 'streams_reread_late': r.get('streams_late')})
+        return n
+
     def replay(self, payload, rng, rdir, out):
         case = payload.get('case') or {}
         chk = case.get('check')
         stats = {'evaluations': 1, 'distinct_nontrivial': 1, 'rule': self.RULE, 'samples': [case]}
-        if chk == 'roundtrip':
+        if chk == 'cache_seq':
+            s = {'cache_sequences': self.check_cache_seq([case], rdir, out)}
+        elif chk == 'roundtrip':
             _, s = self.check_roundtrip([case], rdir, out)
         elif chk == 'parse':
             _, s = self.check_parse([case], rdir, out)
